@@ -810,6 +810,7 @@ def _load_paths(ctx, mod, t: Optional[str], w: Optional[int], **kw) -> List[Path
     if cur_list_atom in assume:
         assume.setdefault(("op", "is", ("sub", A(A(N("self"), "_betterproto"), "default_gen"), FIELD_NAME), N("list")), assume[cur_list_atom])
     kw.setdefault("fork_ifexp", True)
+    kw.setdefault("replay_logs", True)
     i = Interp(mod, bindings=b, aliases=al, alias_fn=load_alias_fn, loop_roles=load_roles, assume=assume, **kw)
     paths = i.run(load)
     ctx.count(len(paths))
